@@ -419,6 +419,19 @@ func ruleBTReg(c *Ctx) {
 			if cs.Static == nil || callee == nil || callee == root || b == root {
 				continue
 			}
+			if reachedOnlyFrom(P, b.Fn, root.Fn, 0) && b.TypParam != nil {
+				// a phase of the dispatcher itself (only the dispatcher calls it): it hands the dispatcher's own
+				// type on to the per-type builders
+				same := true
+				for i, prm := range cs.Static.Params {
+					if prm == callee.TypParam && cs.Common.Args[i] != ssa.Value(b.TypParam) {
+						same = false
+					}
+				}
+				if same {
+					continue
+				}
+			}
 			key := fmt.Sprintf("%s/calls[%s]", fnKey(b.Fn), cs.Static.Name())
 			// pure delegation: same typ handed on and result returned
 			pure := false
@@ -609,8 +622,8 @@ func ruleSGReg(c *Ctx) {
 	if byFold {
 		// the fold has shown the lookups for element and field types: which helper makes the recursive step is
 		// then a matter of layout
-		if c.cur != nil && c.cur.Min > 2 {
-			c.cur.Min = 2
+		if c.cur != nil && c.cur.Min > 1 {
+			c.cur.Min = 1
 		}
 		return
 	}
